@@ -101,6 +101,13 @@ func (g *gen) runActivation() {
 		nsh := 1 + count%2
 		count++
 		g.nsh = nsh
+		// every third world has a notifier that tells each handler the current epoch the moment it registers (the node's
+		// notifier does): the function starts from THAT epoch, compared with ITS activation epoch
+		if count%3 == 0 {
+			g.emitf("notifier %d", epochs[(count/3)%len(epochs)])
+		} else if count%3 == 1 {
+			g.emit("notifier off")
+		}
 		g.emitf("world %d %d %d - %s", nsh, count%2, j.act, gasmapString(g.gas))
 		sh := nsh - 1
 		if len(j.seq) == 0 {
@@ -144,6 +151,7 @@ func (g *gen) runActivation() {
 	g.emitf("registry %d", g.nsh-1)
 	g.emitf("registry %d second", g.nsh-1)
 	g.emit("active 0 NoSuchFunction")
+	g.emit("notifier off")
 }
 
 // ---------------------------------------------------------------------------
@@ -633,8 +641,16 @@ func (g *gen) runCodec() {
 			g.r.Read(b)
 			b[0] &= 3
 			g.emitf("bigdec %s", hx(b))
-		case 3, 4:
+		case 3:
 			keep(g.encDec("enctoken", "dectoken", g.randTokenString()))
+		case 4:
+			// decode, add to the decoded amount in place (as the balance helpers do), encode - then decode an equal
+			// encoding again: the codec keeps no state, so zero decodes to zero however often a decoded zero was changed
+			ts := []string{"0/0///n", "0/0/0000//n", "1/0///1:6e::0:68::", "0/5///n", "0/n///n"}[g.r.Intn(5)]
+			if b := g.encDec("enctoken", "dectoken", ts); b != nil {
+				g.emitf("decaddenc %s %d", hx(b), []int64{5, 1, -3, 0, 1 << 40}[g.r.Intn(5)])
+				g.encDec("enctoken", "dectoken", ts)
+			}
 		case 5:
 			keep(g.encDec("encmeta", "decmeta", g.randMetaString()))
 		case 6:
